@@ -317,13 +317,16 @@ async fn on_event<K, V, LC>(
         MapMessage::Drop(cnt) => {
             let mut it = mem::take(map).into_iter();
 
-            for (key, value) in (&mut it).take(cnt as usize) {
+            let removed = (&mut it).take(cnt as usize).collect::<Vec<_>>();
+            // The remaining entries are restored before the removals are reported so that the
+            // handlers see them (as they do for `Take`).
+            for (key, value) in it {
+                map.insert(key, value);
+            }
+            for (key, value) in removed {
                 if dispatch {
                     lifecycle.on_remove(key, map, value).await;
                 }
-            }
-            for (key, value) in it {
-                map.insert(key, value);
             }
         }
     }
